@@ -8,7 +8,7 @@ request  `V <spec> <op>*`                         vector state machine
          `T <kind> <pspec> <cspec> <bspec|-> <top>*`   transform (params, constants, inner BoxCox2 params)
          `eps`                                     the EPS constant as hex
 spec     `names/defaults/mins/maxs/cb/ch/an`       lists `[..]` or `-` (argument not given), flags 0/1
-op       `sa:k:name:x` `sk:k:name:x` `sv:k:[xs]` `rs:k` `cl:k` `dr:k`
+op       `sa:k:name:x` `sk:k:name:x` `sv:k:[xs]` `rs:k` `cl:k` `dr:k` `gk:k:name` `ga:k:name` `rd:k` `sb:k` `pc:k:0|1`
 top      `fw` `bw` `jc` `sm` `lp` `pr` `ti:name:x` `ta:name:x` `tr` `pv:[xs]` `cv:[xs]`
 reply    observation after construction and after every op, joined by ` | `
 -/
@@ -63,11 +63,25 @@ def aliasClasses (w : World Float) : List Nat :=
   let refs := w.vecs.flatMap Vec.refs
   refs.map fun r => (refs.findIdx? (· == r)).getD 0
 
-def observe (w : World Float) (o : Out) : String :=
+/-- `out kind G<region flag of the op: 1/0/-> R:<value read by the op or -> <vectors> A<alias classes>` -/
+def observe (w : World Float) (o : Out) (g : String := "-") (r : String := "-") : String :=
   let vs := w.vecs.map fun v =>
     let vw := view w.store v
     fmtView vw ++ " " ++ fmtDict (toDict w.store v) ++ " " ++ b01 vw.ok
-  " ".intercalate ([fmtOut o] ++ vs ++ ["A" ++ fmtNatList (aliasClasses w)])
+  " ".intercalate ([fmtOut o, "G" ++ g, "R:" ++ r] ++ vs ++ ["A" ++ fmtNatList (aliasClasses w)])
+
+/-- the model's evaluation of the theorems' conditioning for a whole-vector assignment -/
+def regionFlag (w : World Float) : Op Float → String
+  | .setAll k xs => match w.vecs[k]? with
+    | some v => b01 (all3 (XR.inRegion epsF) xs (w.store.cells v.mins) (w.store.cells v.maxs))
+    | none => "-"
+  | _ => "-"
+
+def readFlag (w : World Float) : Op Float → String
+  | .getKey k nm | .getAttr k nm => match readItem w k nm with
+    | some x => fmtX x
+    | none => "-"
+  | _ => "-"
 
 def op? (s : String) : Option (Op Float) :=
   match s.splitOn ":" with
@@ -80,6 +94,12 @@ def op? (s : String) : Option (Op Float) :=
   | ["rs", k] => k.toNat?.map .reset
   | ["cl", k] => k.toNat?.map .clone
   | ["dr", k] => k.toNat?.map .dictRT
+  | ["gk", k, nm] => k.toNat?.map (.getKey · nm)
+  | ["ga", k, nm] => k.toNat?.map (.getAttr · nm)
+  | ["rd", k] => k.toNat?.map .read
+  | ["sb", k] => k.toNat?.map .setBad
+  | ["pc", k, b] => match k.toNat?, flag? b with
+    | some k, some b => some (.pyCopy k b) | _, _ => none
   | _ => none
 
 def top? (s : String) : Option (TOp Float) :=
@@ -102,7 +122,7 @@ def runV (w : World Float) (ops : List (Op Float)) : List String :=
   | [] => []
   | op :: rest =>
     let (w', o) := step epsF w op
-    observe w' o :: runV w' rest
+    observe w' o (regionFlag w op) (readFlag w op) :: runV w' rest
 
 def runT (w : World Float) (t : Trans) (ops : List (TOp Float)) : List String :=
   match ops with
